@@ -69,11 +69,9 @@ func mod11(num int64) int64 {
 		mul := int64(i) + 2
 		sum += (num % 10) * mul
 	}
-	sum = sum % 11
-	if sum > 9 {
-		sum = 0
-	}
-	return sum
+	// a remainder of 10 has no valid check digit under the "11-proef",
+	// so it must never match the last digit of the code.
+	return sum % 11
 }
 
 func checkMod97(code string) bool {
